@@ -40,4 +40,21 @@ QMap(rank, tgt, n) ==
        f == [r \in R |-> Fdr(rank, tgt, n, r)]
    IN RunMinUp(SetToSortSeq(R, <), f, 1, <<>>)
 \* usage: LET qm == QMap(rank, tgt, n) IN ... qm[rank[i]] ...
+
+(* ---- counting accepted targets in one pass (long vectors: thousands of rows) ----
+   q(i) <= thr  iff  some threshold r <= rank[i] has Fdr(r) <= thr  iff  rank[i] >= the WORST rank rw with Fdr(rw) <= thr.
+   So the number of accepted targets is the number of targets at or above rw: scan the rows from best to worst with
+   running counts and remember the target count at the last tie-group end whose FDR passes.  Tdc.tla checks
+   AcceptedCount = |{i : tgt[i] /\ QDef(i) <= thr}| for all small inputs (invariant CountEqualsDef). *)
+RECURSIVE AccScan(_, _, _, _, _, _, _, _)
+AccScan(srt, rank, tgt, thr, k, t, d, best) ==
+   IF k > Len(srt) THEN best
+   ELSE LET i == srt[k]
+            t2 == IF tgt[i] THEN t + 1 ELSE t
+            d2 == IF tgt[i] THEN d ELSE d + 1
+            endgrp == k = Len(srt) \/ rank[srt[k + 1]] # rank[i]
+            pass == endgrp /\ t2 > 0 /\ Leq(IF d2 + 1 >= t2 THEN One ELSE <<d2 + 1, t2>>, thr)
+        IN AccScan(srt, rank, tgt, thr, k + 1, t2, d2, IF pass THEN t2 ELSE best)
+AcceptedCount(rank, tgt, n, thr) ==
+   AccScan(SortSeq([i \in 1..n |-> i], LAMBDA a, b : rank[a] > rank[b]), rank, tgt, thr, 1, 0, 0, 0)
 =============================================================================
